@@ -361,6 +361,7 @@ def save_score_midi(
         ppq = ppq * 2
 
     events = defaultdict(lambda: defaultdict(list))
+    off_events = defaultdict(lambda: defaultdict(list))
     meta_events = defaultdict(lambda: defaultdict(list))
 
     event_keys = OrderedDict()
@@ -497,9 +498,16 @@ def save_score_midi(
             events[key][to_ppq(note.start.t)].append(
                 Message("note_on", note=note.midi_pitch, velocity=velocity)
             )
-            events[key][to_ppq(note.start.t + note.duration_tied)].append(
-                Message("note_off", note=note.midi_pitch)
-            )
+            t_off = to_ppq(note.start.t + note.duration_tied)
+            if t_off > to_ppq(note.start.t):
+                # ends of sounding notes go before the note-ons of their tick
+                # (collected separately, see below)
+                off_events[key][t_off].append(
+                    Message("note_off", note=note.midi_pitch)
+                )
+            else:
+                # a zero-length (grace) note ends right after it starts
+                events[key][t_off].append(Message("note_off", note=note.midi_pitch))
             event_keys[key] = True
 
     tr_ch_map = map_to_track_channel(list(event_keys.keys()), part_voice_assign_mode)
@@ -511,6 +519,15 @@ def save_score_midi(
         tr, ch = tr_ch_map[key]
         for t, evs in evs_by_time.items():
             events[tr][t].extend((ev.copy(channel=ch) for ev in evs))
+        for t, evs in off_events.pop(key, {}).items():
+            off_events[tr][t].extend((ev.copy(channel=ch) for ev in evs))
+
+    # when voices or parts share a track and channel, a note may end at the
+    # tick at which another note of the same pitch starts: write all note-offs
+    # of a tick before its note-ons, otherwise a reader pairs them wrongly
+    for tr, offs_by_time in off_events.items():
+        for t, evs in offs_by_time.items():
+            events[tr][t] = evs + events[tr][t]
 
     # figure out in which tracks to replicate the time/key signatures of each part
     part_track_map = partition(lambda x: x[0][1], tr_ch_map.items())
